@@ -71,7 +71,7 @@ def known_pair(it):
 
 
 def decode_op(rng, overflow=False):
-    fam = rng.choice([4, 4, 6, 6, 6, 0, 1, 99])
+    fam = rng.choice([4, 4, 4, 4, 6, 6, 6, 6, 6, 0, 1, 99])
     op = [1, rng.choice([0, 1, 1200, 2400, 3000, 65535, rng.range(0, 70000)]), fam]
     if fam == 4:
         op += rng.bytes(4) + [rng.choice([0, 1, 443, 65535, rng.below(65536)])]
@@ -139,7 +139,7 @@ def nontrivial(case, outs):
 def stats(cases, outs):
     d = {"prepare": 0, "decode_ok": 0, "decode_addr_err": 0, "effective_seg_none": 0, "effective_seg_some": 0,
          "panic_cases": 0, "prepare_cmsg_count": {}, "prepare_controllen": {}, "decode_with_gro": 0,
-         "decode_with_ecn": 0, "decode_with_dst": 0}
+         "decode_with_ecn": 0}
     combos = set()
     for c, o in zip(cases, outs):
         if o == [[-999]]:
